@@ -25,10 +25,10 @@ def run(ctx):
     import time
     t0 = time.time()
     log(f"[C05] theorems+model ready")
-    bins, berr, units = json_units(ctx, quick, 4 if quick else 50)
+    bins, berr, units = json_units(ctx, quick, 4 if quick else 16)
     log(f"[C05] {len(units)} units prepared in {time.time() - t0:.0f}s")
-    nvals = 8 if quick else 80
-    nrand = 2 if quick else 20
+    nvals = 8 if quick else 32
+    nrand = 2 if quick else 8
     stats = {"schemas": 0, "kernel_rejected": 0, "types": 0, "unmodelled_types": 0, "write_ops": 0, "roundtrip_ops": 0,
              "model_values": 0, "go_rand_values": 0, "nan_payload_values": 0, "budget_skips": 0, "model_enc_none": 0,
              "tl1_refused_by_reader": 0, "model_fuel": 0,
